@@ -538,6 +538,20 @@ def check(repo, rep):
                 badpf = None
                 try:
                     for tpl in ('{id}: {start} -> {end}', 'a\\nb\\tc\\rd', '\u00e9v\u00e8nement n\u00b0{id} \u2192 {end}', '{id}\\n', 'x\\\\y', '100%'):
+                        # the path must apply to this template (a fast path for templates without a backslash ...)
+                        applies_ = True
+                        for ct_, tr_, _n in l.conds:
+                            if not any(x == PF for x in walk(ct_)):
+                                continue
+                            ec_ = _evp({PF: tpl})
+                            gc_ = ec_.ev(ct_)
+                            if ec_.leaves:
+                                raise _NEp('condition %s depends on %s' % (show(ct_)[:40], [show(k)[:30] for k in ec_.leaves][:2]))
+                            if bool(gc_) != tr_:
+                                applies_ = False
+                                break
+                        if not applies_:
+                            continue
                         e_ = _evp({PF: tpl})
                         got = e_.ev(pf)
                         if e_.leaves:
@@ -837,19 +851,23 @@ def check(repo, rep):
     rep.floor('main() paths that build the keyword groups', nparse, 2)
     # the polling loop: EndOfProcessing exactly when threading.enumerate() holds one thread (the main one)
     NTHREADS = ('call', ('b', 'len'), (('call', ('ext', 'threading.enumerate'), (), ()),), ())
+    ACTIVE = ('call', ('ext', 'threading.active_count'), (), ())          # by definition len(threading.enumerate())
     ends = [l for l in mlv if l.outcome == 'raise' and exc_name(l) == 'EndOfProcessing']
     goes = [l for l in mlv if l.outcome == 'loop-back']
+    counted = any(x in (NTHREADS, ACTIVE) for l in ends + goes for ct, _, _ in l.conds for x in walk(ct))
     if not ends or not goes:
         rep.unknown('main(): the wait loop (raise EndOfProcessing / keep waiting) was not recognised')
+    elif not counted:
+        rep.unknown('main(): the wait loop does not test the number of live threads in a recognised way (len(threading.enumerate()) / threading.active_count())')
     else:
         try:
             bad = None
             for k_ in (1, 2, 3, 5):
                 def takes(l):
                     for ct, tr, _ in l.conds:
-                        if not any(x == NTHREADS for x in walk(ct)):
+                        if not any(x in (NTHREADS, ACTIVE) for x in walk(ct)):
                             continue
-                        ev_ = evaluator({NTHREADS: k_})
+                        ev_ = evaluator({NTHREADS: k_, ACTIVE: k_})
                         got = ev_.ev(ct)
                         if ev_.leaves:
                             raise Undecided('condition %s depends on more than the number of threads' % show(ct)[:60])
